@@ -677,7 +677,7 @@ def check_C18(c):
     shutil.copy(cfg, tw)
     env = dict(os.environ)
     env.pop("JAVA_TOOL_OPTIONS", None)
-    r = subprocess.run(["java", "-Xmx4g", "-cp", TLA_CP, "tlc2.TLC", "-workers", str(NPROC), "-metadir", os.path.join(tw, "md"),
+    r = subprocess.run(["java", "-Djava.io.tmpdir=" + tw, "-Xmx4g", "-cp", TLA_CP, "tlc2.TLC", "-workers", str(NPROC), "-metadir", os.path.join(tw, "md"),
                         "-config", "MC_conc.cfg", "MC_conc.tla"], cwd=tw, capture_output=True, text=True, env=env, timeout=900)
     m = re.search(r"(\d+) states generated, (\d+) distinct states found", r.stdout)
     if not m:
